@@ -515,10 +515,10 @@ class Check:
                 self.known_hits[kid]["count"] += 1
                 return False
         self.violations.append({"what": what, "case": case, "fingerprint": fp})
-        if self._printed < 20:
+        if self._printed < 12:
             path = self._write_replay(case, what, fp)
             print(f"VIOLATION property={self.pid} replay={path}")
-            print(f"  {what}"[:600])
+            print(f"  {what}"[:420])
             self._printed += 1
         return True
 
